@@ -9,13 +9,14 @@ enum { CK_PROMISE_KEPT, CK_PROMISE_RESOLVED_INSIDE, CK_FROM_FUTURE_PENDING, CK_F
 enum { WA_WAIT, WA_COAWAIT, WA_DROP_PENDING, WA_POLL, WA_COPY_THEN_WAIT, WA_COUNT };
 enum { RA_VALUE, RA_EXC, RA_DROP };
 struct Worker { uint8_t action, yields; };
-struct Prog { uint8_t vt; uint8_t ck; uint8_t ra; uint8_t res_yields; std::vector<Worker> w; uint8_t main_drop; };  // main_drop: 0 keeps handle to the end, 1 drops before joining
+struct Prog { uint8_t vt; uint8_t ck; uint8_t ra; uint8_t res_yields; std::vector<Worker> w; uint8_t main_drop; uint8_t early_copy = 0; };  // main_drop: 0 keeps handle to the end, 1 drops before joining
 
 inline Prog decode(hz::Reader &r) {
     Prog p; p.vt = (uint8_t)r.mod(2); p.ck = (uint8_t)r.mod(CK_COUNT); p.ra = (uint8_t)r.mod(3); p.res_yields = (uint8_t)r.mod(4);
     unsigned n = 1 + r.mod(3);
     for (unsigned i = 0; i < n; i++) { Worker w; w.action = (uint8_t)r.mod(WA_COUNT); w.yields = (uint8_t)r.mod(3); p.w.push_back(w); }
     p.main_drop = (uint8_t)r.mod(2);
+    p.early_copy = (uint8_t)r.mod(2);        // default-constructed kind: init_if_needed(), copy the handle, THEN get_promise()
     return p;
 }
 inline std::string describe(const Prog &p) {
@@ -24,6 +25,7 @@ inline std::string describe(const Prog &p) {
     static const char *ra[] = {"value", "exception", "drop"};
     hz::Desc d; d << "shared_future<" << (p.vt ? "Counted" : "int") << "> " << ck[p.ck] << "; resolver thread: yield*" << (unsigned)p.res_yields << ", " << ra[p.ra] << "; workers:";
     for (auto &w : p.w) d << " [yield*" << (unsigned)w.yields << ", " << wa[w.action] << "]";
+    if (p.ck == CK_DEFAULT_GET_PROMISE && p.early_copy) d << "; the workers' copies are taken after init_if_needed() but BEFORE get_promise()";
     d << (p.main_drop ? "; owner drops its handle before joining" : "; owner keeps its handle");
     return d.s;
 }
@@ -87,16 +89,21 @@ void run_t(const Prog &p) {
             else if (p.ra == RA_EXC) c.kept(std::make_exception_ptr(val::TestExc(5)));
             else c.kept(cocls::drop);
         });
-        std::optional<SF> sf;
+        std::optional<SF> sf, early;
         switch (p.ck) {
             case CK_PROMISE_KEPT: sf.emplace([&](cocls::promise<T> pr) { c.keep(std::move(pr)); }); break;
             case CK_PROMISE_RESOLVED_INSIDE: sf.emplace([&](cocls::promise<T> pr) { pr(ST<VT>::mk(42)); }); break;
             case CK_FROM_FUTURE_PENDING: sf.emplace([&]() -> cocls::future<T> { return cocls::future<T>([&](cocls::promise<T> pr) { c.keep(std::move(pr)); }); }); break;
             case CK_FROM_FUTURE_READY: sf.emplace([&]() -> cocls::future<T> { return cocls::future<T>::set_value(ST<VT>::mk(42)); }); break;
-            default: sf.emplace(); c.keep(sf->get_promise()); break;
+            default:
+                sf.emplace();
+                if (p.early_copy) { sf->init_if_needed(); early.emplace(*sf); }      // copies of an initialised, not yet promised handle share its state
+                c.keep(sf->get_promise());
+                break;
         }
         std::vector<std::thread> th;
-        for (size_t i = 0; i < p.w.size(); i++) th.emplace_back([&c, &p, i, copy = *sf]() mutable { c.worker(i, p, std::move(copy)); });
+        for (size_t i = 0; i < p.w.size(); i++) th.emplace_back([&c, &p, i, copy = early ? *early : *sf]() mutable { c.worker(i, p, std::move(copy)); });
+        early.reset();
         if (p.main_drop) sf.reset();
         bool only_droppers = true; for (auto &w : p.w) if (w.action != WA_DROP_PENDING) only_droppers = false;
         all_dropped_while_pending = p.main_drop && only_droppers && pending_kind;
